@@ -41,8 +41,8 @@ def permits(perms, kind, key):
 
 class C09(Spec):
     pid = "C09"
-    lean_module = "NunVerif.Props.C09"
-    theorems = ["Nun.C09_unauth_noop", "Nun.C09_unauth_line_noop", "Nun.C09_user_management_needs_admin", "Nun.C09_needs_db",
+    lean_module = "NunVerif.Props.C09Removed"
+    theorems = ["Nun.C09_missing_user_cannot_log_in", "Nun.C09_tombstoned_user_cannot_log_in", "Nun.C09_removed_user_cannot_log_in", "Nun.C09_unauth_noop", "Nun.C09_unauth_line_noop", "Nun.C09_user_management_needs_admin", "Nun.C09_needs_db",
                 "Nun.C09_failed_usedb_keeps_selection", "Nun.C09_permits_is_spec", "Nun.C09_permission_sound",
                 "Nun.C09_secure_key_refused", "Nun.C09_guard_table_pin"]
     rule = ("near-miss credentials (prefix of the secret, secret plus a suffix, none, other case, moved blanks) for the administrator's password, the database token and the user token, each followed by admin / data probes; a login is only accepted with the credentials the administrator's commands left; full matrix {no auth, wrong password, db token, wrong token, user token} x every command word (argument variants incl. malformed) x "
